@@ -579,22 +579,28 @@ func c19(sum *lib.Summary) {
 		PerFile:  400,
 	}
 	// every case goes to the Go oracle; the first ncoq random cases (and all fixed/corpus cases) also to the Coq model
-	nrand, ncoq, scriptEvery := 5000, 1500, 4
+	nrand, ncoq, scriptEvery := 5000, 1200, 4
+	nseq, nseqCoq, seqScriptEvery := 1200, 100, 3
 	if *tier == "thorough" {
-		nrand, ncoq, scriptEvery = 60000, 16000, 4
+		nrand, ncoq, scriptEvery = 60000, 14000, 4
+		nseq, nseqCoq, seqScriptEvery = 15000, 600, 3
 	}
 	sum.Rule = "operations of String/Character/StringBuilder on strings from a Unicode-biased generator (ASCII, CR/LF, combining marks in " +
 		"canonical and non-canonical order, precomposed/decomposed pairs, singleton decompositions, emoji ZWJ sequences, modifiers, regional " +
 		"indicators, Hangul jamo/syllables, Prepend/SpacingMark/Indic conjuncts, UTF-8 length boundaries, invalid UTF-8 for fromUTF8); needles are " +
 		"cluster-aligned substrings, code-point-aligned (cluster-misaligned) fragments, single code points, empty, or unrelated. Every case: real " +
 		"StringValue method vs an independent cluster-level oracle in Go (uniseg clusters of the NFC form); the fixed cases and the first 1500 (quick) / " +
-		"16000 (thorough) random cases also vs the Coq model (vm_compute) fed with the NFC/boundary oracle tables; every 4th case also as a script in interpreter and VM. non-trivial = an input is non-ASCII or has a " +
+		"16000 (thorough) random cases also vs the Coq model (vm_compute) fed with the NFC/boundary oracle tables; every 4th case also as a script in interpreter and VM. " +
+		"In addition 1200 (quick) / 15000 (thorough) SEQUENCES of 3-9 operations on the same value objects (length/index/slice/iterate first, then " +
+		"concat/slice/replaceAll/join/toLower at seams where clusters merge or NFC composes, then length/index at the true count/iteration/comparison on " +
+		"the result): every step is compared with the cluster-list specification of the current contents, a part with the Coq model, and every 3rd " +
+		"sequence is replayed as one script with let-bound strings in both engines. non-trivial = an input is non-ASCII or has a " +
 		"multi-code-point cluster, or the required result is a failure/nil; distinct = distinct (op, inputs)"
 	h := lib.NewHost()
 	distinct := map[string]bool{}
 	hypChecked := map[string]bool{}
 
-	runCase := func(c *opCase, idx int, forceScript bool, toCoq bool) {
+	runCase := func(c *opCase, idx int, forceScript bool, toCoq bool) bool {
 		t := newTab()
 		want := c.spec(t)
 		key := c.key()
@@ -611,7 +617,12 @@ func c19(sum *lib.Summary) {
 		}
 		var got obs
 		haveGot := false
-		if !c.noReal {
+		if c.pre != nil { // observed in a sequence of operations on the same value objects
+			got, haveGot = *c.pre, true
+			d["sequence"] = c.seq
+			sum.Evaluations++
+			sum.Count("seq:" + c.op)
+		} else if !c.noReal {
 			var ok bool
 			got, ok = c.direct()
 			if !ok {
@@ -621,7 +632,7 @@ func c19(sum *lib.Summary) {
 			sum.Evaluations++
 			sum.Count(c.op)
 		}
-		if forceScript || idx%scriptEvery == 0 || c.noReal {
+		if c.pre == nil && (forceScript || idx%scriptEvery == 0 || c.noReal) {
 			for _, vm := range []bool{false, true} {
 				sg, src := c.runScript(h, vm)
 				sum.Evaluations++
@@ -641,7 +652,11 @@ func c19(sum *lib.Summary) {
 		d["observed"] = got.String()
 		if !got.eq(want) {
 			d["required"] = want.String()
-			sum.Fail("string-op:"+c.op, fmt.Sprintf("%s %v: observed %s, required (cluster-sequence specification) %s", c.op, d, got, want), d)
+			k := "string-op:"
+			if c.pre != nil {
+				k = "string-seq:"
+			}
+			sum.Fail(k+c.op, fmt.Sprintf("%s %v: observed %s, required (cluster-sequence specification) %s", c.op, d, got, want), d)
 		}
 		if got.kind == "err" && got.err != lib.EIndexOOB && got.err != lib.EUserOther && got.err != lib.EOverflow {
 			sum.Count("unexpected-error-class:" + got.err)
@@ -669,6 +684,7 @@ func c19(sum *lib.Summary) {
 			}
 		}
 		sum.Count("result:" + got.kind)
+		return got.eq(want)
 	}
 
 	fixed := append(fixedCases(), loadCorpus(*corpus)...)
@@ -680,6 +696,15 @@ func c19(sum *lib.Summary) {
 	for i := 0; i < nrand; i++ {
 		runCase(genCase(r), i, false, i < ncoq)
 	}
+	// sequences of operations on the SAME value objects (cached state inside StringValue must not leak)
+	seqs := fixedSeqs()
+	for i := 0; i < nseq; i++ {
+		seqs = append(seqs, genSeq(r))
+	}
+	for i, sq := range seqs {
+		runSeq(sq, sum, h, func(c *opCase) bool { return runCase(c, 0, false, i < nseqCoq+len(fixedSeqs())) }, i%seqScriptEvery == 0 || i < len(fixedSeqs()))
+	}
+	sum.Distribution["operation sequences"] = len(seqs)
 	cw.Close()
 	sum.CaseFiles = cw.Files
 }
